@@ -10,6 +10,7 @@ Shared machinery of the corankco verification harness.
 
 Nothing in here computes an oracle: every expected value comes from TLC.
 """
+import functools
 import json
 import os
 import re
@@ -535,11 +536,24 @@ def build_dataset(raw, how=0, name="verif"):
 
 
 # --------------------------------------------------------------------------- process pool
+_INIT_ERR = []
+
+
 def _pool_init(initfn, aux):
     signal.signal(signal.SIGINT, signal.SIG_IGN)
-    setup_impl_env()
-    if initfn:
-        initfn(aux)
+    # an initializer that raises makes multiprocessing respawn workers for ever: keep the error, fail on first use
+    try:
+        setup_impl_env()
+        if initfn:
+            initfn(aux)
+    except BaseException as ex:     # noqa: BLE001
+        _INIT_ERR.append(repr(ex))
+
+
+def _guarded(fn, item):
+    if _INIT_ERR:
+        raise MachineryError("worker initialisation failed: " + _INIT_ERR[0])
+    return fn(item)
 
 
 def pmap(fn, items, initfn=None, procs=NCPU, chunksize=None, aux=None):
@@ -554,7 +568,7 @@ def pmap(fn, items, initfn=None, procs=NCPU, chunksize=None, aux=None):
     with ctx.Pool(procs, initializer=_pool_init, initargs=(initfn, aux)) as pool:
         # a worker killed by the implementation (e.g. a segmentation fault in a compiled kernel) would make a plain
         # map() wait for ever: bound the wait and report a machinery failure instead of hanging
-        res = pool.map_async(fn, items, chunksize=chunksize)
+        res = pool.map_async(functools.partial(_guarded, fn), items, chunksize=chunksize)
         try:
             return res.get(timeout=float(os.environ.get("VERIF_STAGE_TIMEOUT", "5400")))
         except mp.TimeoutError:
